@@ -865,7 +865,7 @@ fn c07_case(c: &C07Case, rep: &mut Report) -> Vec<(String, String)> {
         _ => {}
     }
     *FATAL_CTX.lock().unwrap() = Some(("C07".into(), c.to_json()));
-    let o = run_graph(built, &order, c.mt, if c.seed % 2 == 0 { c.seed | 1 } else { 0 }, if c.mt { 6 } else { 200 });
+    let mut o = run_graph(built, &order, c.mt, if c.seed % 2 == 0 { c.seed | 1 } else { 0 }, if c.mt { 6 } else { 200 });
     if let Some(h) = outside {
         let _ = h.join();
     }
@@ -922,6 +922,14 @@ fn c07_case(c: &C07Case, rep: &mut Report) -> Vec<(String, String)> {
         }
         return out;
     }
+    if o.stuck && c.dangling {
+        // The graph backed up on the unread application-side stream and the
+        // monitor's stuck rule cancelled it *before* the scenario's own
+        // cancellation point was reached (the k-th yield is then passed while
+        // the threads wind down): this run says nothing about the scenario.
+        rep.count("dangling_graph_backed_up_and_was_cancelled_by_the_monitor", 1);
+        return out;
+    }
     rep.count("cancellations_judged", 1);
     if o.stuck {
         out.push((format!("{runner}|cancel-ignored"), format!("after cancel() the runner kept calling blocks and run() did not return (monitor had to intervene); cancelled at {site:?}; case {}", c.to_json())));
@@ -945,6 +953,22 @@ fn c07_case(c: &C07Case, rep: &mut Report) -> Vec<(String, String)> {
     }
     if c.mt && (!o.all_dropped || o.tasks_leaked) {
         out.push((format!("{runner}|threads-left-after-cancel"), format!("dropped={} tasks_leaked={}; case {}", o.all_dropped, o.tasks_leaked, c.to_json())));
+    }
+    // The token stays triggered: entering run() again on the same graph must
+    // return at once, without calling a block and without panicking (the
+    // single-threaded runner keeps its blocks and its statistics across runs).
+    if let (Some(g), true) = (o.graph.as_mut(), matches!(o.result, Ok(Ok(())))) {
+        let before: Vec<u64> = o.stats.iter().map(|s| s.calls.load(Ordering::SeqCst)).collect();
+        rep.count("reruns_with_the_token_still_triggered", 1);
+        match catch(|| g.run().map_err(|e| format!("{e}"))) {
+            Err(pn) => out.push((format!("{runner}|rerun-after-cancel-panicked|{}", sig_of_msg(&pn)), format!("run() entered again with the token still triggered panicked: {pn}; case {}", c.to_json()))),
+            Ok(_) => {
+                let after: Vec<u64> = o.stats.iter().map(|s| s.calls.load(Ordering::SeqCst)).collect();
+                if after.iter().zip(&before).any(|(a, b)| a > &(b + 1)) {
+                    out.push((format!("{runner}|rerun-after-cancel-calls-blocks"), format!("run() entered again with the token still triggered called blocks: calls {before:?} -> {after:?}; case {}", c.to_json())));
+                }
+            }
+        }
     }
     if rep.want_sample() {
         rep.sample(json!({"case": c.to_json(), "cancelled_at": site, "max_calls_after_cancel": maxafter}));
